@@ -163,7 +163,7 @@ def _(self: "Name", **kwargs):
     ensures("C15.name.rt_bytes",
             len(self.bytes) == 8,
             forall(lambda i: implies(i != 6, self.bytes[i] == kwargs['bytes'][i]), 0, 8),
-            self.bytes[6] == kwargs['bytes'][6] - bits(kwargs['bytes'][6], 0, 1))
+            self.bytes[6] == kwargs['bytes'][6] - bits(kwargs['bytes'][6], 0, 1), export=False)
 
 
 @unit("j1939.name:Name.value.getter", arith="bv", width=80, props=["C15", "C04"])
@@ -202,6 +202,7 @@ def _(self: "Name"):
     requires(name_in_range(self.arbitrary_address_capable, self.industry_group, self.vehicle_system_instance, self.vehicle_system,
                            self.function, self.function_instance, self.ecu_instance, self.manufacturer_code, self.identity_number),
              0 <= self.reserved_bit < 2)
+    returns("octets")
     ensures("C15.name.bytes_le", len(result) == 8, forall(lambda i: result[i] == le_octet(self.value, i), 0, 8),
             le8(result[0], result[1], result[2], result[3], result[4], result[5], result[6], result[7]) == self.value)
 
